@@ -653,7 +653,7 @@ func runCheck(spec *CheckSpec, tier string) int {
 				subject := c.Harness + " " + c.V.Class + " " + c.V.Msg
 				if k.kind == "known" && k.property == spec.ID && k.match != "" && strings.Contains(subject, k.match) && !printedKnown[k.text] {
 					printedKnown[k.text] = true
-					fmt.Printf("KNOWN-FINDING: property=%s %s\n", spec.ID, strings.TrimSpace(strings.TrimPrefix(k.text, "known:")))
+					fmt.Printf("KNOWN-FINDING: property=%s %s\n", spec.ID, strings.TrimSpace(strings.TrimPrefix(strings.TrimSpace(strings.TrimPrefix(k.text, "known:")), "property="+spec.ID)))
 				}
 			}
 			continue
@@ -672,7 +672,7 @@ func runCheck(spec *CheckSpec, tier string) int {
 				isKnown = true
 				if !printedKnown[k.text] {
 					printedKnown[k.text] = true
-					fmt.Printf("KNOWN-FINDING: property=%s %s\n", spec.ID, strings.TrimSpace(strings.TrimPrefix(k.text, "known:")))
+					fmt.Printf("KNOWN-FINDING: property=%s %s\n", spec.ID, strings.TrimSpace(strings.TrimPrefix(strings.TrimSpace(strings.TrimPrefix(k.text, "known:")), "property="+spec.ID)))
 				}
 			}
 		}
